@@ -16,7 +16,7 @@ SHRINK = None
 
 def gen(rng, i, tier):
     n = int(rng.integers(2, 60 if tier == "quick" else 600))
-    big = bool(rng.random() < 0.015)
+    big = bool(i >= 0 and i % 75 == 37)    # two per quick run, by position (not by chance)
     if big:
         n = int(rng.integers(150000, 260000))   # len(x)*len(x') beyond 2^23: block-wise / chunked evaluations show their seams
     x, gk = grid(rng, n=n, extra=0.3, kind="irregular" if big else None)
@@ -26,7 +26,7 @@ def gen(rng, i, tier):
     # "every data vector": the values may not depend on whether / which uncertainties accompany the data
     r = rng.random()
     dy = None if r < 0.4 else (unc_relative(rng, y) if r < 0.7 else unc(rng, x, allow_none=False))
-    xo, _ = grid(rng, n=(int(rng.integers(45, 60)) if big else int(rng.integers(1, 10)) + 1))
+    xo, _ = grid(rng, n=(int(rng.integers(90, 140)) if big else int(rng.integers(1, 10)) + 1))   # big: also more output points than fit in one 2^24-element block
     if gk.startswith("tiny"):
         xo = xo * 1e9          # conjugate units, so that x*x' stays of order one
     elif gk.startswith("huge"):
